@@ -1386,7 +1386,19 @@ def chainmap_new(X, args, kw, node):
     return TupV([a for a in args] or [Con({})], is_list=True)
 
 
+def m_fmod(X, args, kw, node):
+    """math.fmod(x, y) for y > 0 over the reals: the remainder has the sign of x, |r| < y and
+    x - r is an integer multiple of y."""
+    x, y = X.num(args[0]), X.num(args[1])
+    r = z3.Real(X.fresh_name('fmod'))
+    q = z3.Int(X.fresh_name('fmod_q'))
+    X.assume(z3.Implies(y > 0, z3.And(x == z3.ToReal(q) * y + r, z3.If(x >= 0, z3.And(0 <= r, r < y),
+                                                                        z3.And(-y < r, r <= 0)))))
+    return ZV(r)
+
+
 EXTERNALS = {
+    'math.fmod': m_fmod,
     'collections.ChainMap': chainmap_new,
     'math.sqrt': m_sqrt, 'math.cos': m_cos, 'math.sin': m_sin, 'math.atan2': m_atan2,
     'math.radians': m_radians, 'math.tan': m_tan, 'operator.mul': op_mul,
